@@ -103,6 +103,8 @@ def explore(ctx):
             lp = rng.choice(lists)
             lst = G.get_at_path(c.doc, lp)
             target = lst[1][0]
+            if target[0] in ('&', '*') or "('&'" in repr(target) or "('*'" in repr(target):
+                continue        # an alias cannot carry an anchor; a copy written out would repeat inner anchors
             aliased = G.replace_at(c.doc, lp, lambda d: ('q', [('&', 'x1', target)] + list(lst[1][1:]) + [('*', 'x1')], lst[2]))
             inlined = G.replace_at(c.doc, lp, lambda d: ('q', list(lst[1]) + [target], lst[2]))
             p, q = lp + (0,), lp + (len(lst[1]),)
@@ -111,6 +113,8 @@ def explore(ctx):
             i, j = rng.choice(equal) if (equal and r < 0.7) else rng.choice(same) if (same and r < 0.93) else rng.choice(pairs)
             p, q = ps[i], ps[j]
             target = G.get_at_path(c.doc, p)
+            if target[0] in ('&', '*') or "('&'" in repr(target) or "('*'" in repr(target):
+                continue
             aliased = G.replace_at(G.replace_at(c.doc, q, lambda d: ('*', 'x1')), p, lambda d: ('&', 'x1', target))
             inlined = G.replace_at(c.doc, q, lambda d: target)
         try:
